@@ -1,4 +1,7 @@
 import Hcl.Proofs.LexLiterals
+import Hcl.Proofs.LexComments
+import Hcl.Proofs.ParseGrouping
+import Hcl.Proofs.ParseUnary
 import Hcl.Model.Parser
 import Hcl.Spec.Grammar
 import Hcl.Generated
@@ -102,3 +105,95 @@ theorem C11_digit (d0 : Char) (h0 : isDec d0 = true) :
 /-- the digit values are the usual ones, in either case -/
 example : digitVal '7' = 7 ∧ digitVal 'a' = 10 ∧ digitVal 'F' = 15 ∧ digitsVal 16 "1fE".toList = 510 ∧
     digitsVal 2 "0101".toList = 5 ∧ digitsVal 10 "340".toList = 340 := by decide
+
+/-! ### comments -/
+
+open Lexer in
+/-- **C11, block comments**: `/*`, any text without `*/` (scanning starts at the opening `*`), `*/` yields no token, and the
+    lexer goes on with exactly the text after the comment -/
+theorem C11_block_comment (cls : CharCls) (hcls : PunctCls cls) (total fuel : Nat) (body rest : List Char) (off : Nat)
+    (hnc : NoClose ('*' :: body)) :
+    lexAll cls total (fuel + 1) ('/' :: '*' :: (body ++ '*' :: '/' :: rest)) off =
+      lexAll cls total fuel rest (off + 4 + sizeOf' body) := by
+  rw [lexAll, lexStep_block_comment cls hcls total body rest off hnc]
+  rfl
+
+open Lexer in
+/-- **C11, `#` comments**: from `#` to the end of the line nothing is a token; the line end itself is read next -/
+theorem C11_hash_comment (cls : CharCls) (hcls : PunctCls cls) (total fuel : Nat) (body : List Char) (nl : Char) (rest : List Char)
+    (off : Nat) (hbody : ∀ c ∈ body, c ≠ '\n' ∧ c ≠ '\r') (hnl : nl = '\n' ∨ nl = '\r') :
+    lexAll cls total (fuel + 1) ('#' :: (body ++ nl :: rest)) off =
+      lexAll cls total fuel (nl :: rest) (off + 1 + sizeOf' body) := by
+  rw [lexAll, lexStep_hash_comment cls hcls total body nl rest off hbody hnl]
+  rfl
+
+open Lexer in
+/-- **C11, `//` comments**, likewise -/
+theorem C11_slash_comment (cls : CharCls) (hcls : PunctCls cls) (total fuel : Nat) (body : List Char) (nl : Char) (rest : List Char)
+    (off : Nat) (hbody : ∀ c ∈ body, c ≠ '\n' ∧ c ≠ '\r') (hnl : nl = '\n' ∨ nl = '\r') :
+    lexAll cls total (fuel + 1) ('/' :: '/' :: (body ++ nl :: rest)) off =
+      lexAll cls total fuel (nl :: rest) (off + 2 + sizeOf' body) := by
+  rw [lexAll, lexStep_slash_comment cls hcls total body nl rest off hbody hnl]
+  rfl
+
+/-- the ASCII classification treats `/` and `#` as the lexer expects -/
+example : Lexer.PunctCls Lexer.asciiCls := ⟨by decide, by decide, by decide, by decide⟩
+/-- `/*a*/`: the text between the `/` and the closing `*/` has no `*/` in it -/
+example : Lexer.NoClose ['*', 'a'] := by
+  intro p q h
+  match p, h with
+  | [], h => simp at h
+  | [_], h => simp at h
+  | _ :: _ :: _, h => simp at h
+
+open Lexer in
+/-- **C11, blank space** (spaces, tabs, CR, LF and every other character the classification calls white space,
+    whatever its length in bytes): it yields no token and the lexer goes on with the text after it -/
+theorem C11_blank_space (cls : CharCls) (total : Nat) : ∀ (ws : List Char) (fuel : Nat) (rest : List Char) (off : Nat),
+    (∀ c ∈ ws, cls.isWhitespace c = true) →
+    lexAll cls total (fuel + ws.length) (ws ++ rest) off = lexAll cls total fuel rest (off + sizeOf' ws)
+  | [], fuel, rest, off, _ => by simp [sizeOf'_nil]
+  | c :: ws, fuel, rest, off, h => by
+    have hc := h c List.mem_cons_self
+    have e : fuel + (c :: ws).length = (fuel + ws.length) + 1 := by simp; omega
+    rw [e, List.cons_append, lexAll]
+    simp only [lexStep, hc, if_true]
+    rw [List.nil_append, C11_blank_space cls total ws fuel rest (off + size c) (fun x hx => h x (List.mem_cons_of_mem _ hx)),
+      sizeOf'_cons, Nat.add_assoc]
+
+/-! ### every pair and every triple of binary operators -/
+
+open Grouping in
+/-- **C11, precedence and grouping of the parser model**: for every pair and every triple of binary operators written
+    without parentheses between wires, the parser returns the one tree in which every operator's left operand binds
+    tighter (or equally, on a level that groups left to right) and its right operand strictly tighter, by the documented
+    levels (`level_documented`: the positions in `Spec.precTable`) -- and refuses the text exactly when no such tree
+    exists, which is when two comparisons would chain.  (The real LALRPOP parser is compared with this model on the
+    same pairs and triples, and on random expressions, by S-PARSE.) -/
+theorem C11_pairs_and_triples_grouped :
+    (allBinOps.all fun o1 => allBinOps.all fun o2 => agrees [o1, o2]) = true ∧
+    (allBinOps.all fun o1 => allBinOps.all fun o2 => allBinOps.all fun o3 => agrees [o1, o2, o3]) = true :=
+  ⟨pairs_grouped, triples_grouped⟩
+
+open Grouping in
+example : parseSk (toksOf 0 [.add, .mul]) = some (.bin .add (.leaf 0) (.bin .mul (.leaf 4) (.leaf 8))) := by decide +kernel
+open Grouping in
+example : parseSk (toksOf 0 [.sub, .sub]) = some (.bin .sub (.bin .sub (.leaf 0) (.leaf 4)) (.leaf 8)) := by decide +kernel
+open Grouping in
+example : parseSk (toksOf 0 [.eq, .lt]) = none := by decide +kernel
+open Grouping in
+example : parseSk (toksOf 0 [.eq, .land, .ne]) =
+    some (.bin .land (.bin .eq (.leaf 0) (.leaf 4)) (.bin .ne (.leaf 8) (.leaf 12))) := by decide +kernel
+
+/-- **C11, unary operators, slices and `in`** against every binary operator (the parser model, by kernel evaluation):
+    a unary operator applies to the operand next to it only, in either operand position; a slice binds tighter than
+    every binary operator on either side; a unary operator and a slice do not combine without parentheses; `in` lies
+    between `|` and the comparisons. -/
+theorem C11_unary_slice_in :
+    (Grouping.allUnOps.all fun u => Grouping.allBinOps.all fun op =>
+      Grouping.parseSk2 [(0, Grouping.unTok u, 1), Grouping.idT 2, (4, Grouping.tokOf op, 5), Grouping.idT 6] ==
+        some (.bin op (.un u (.leaf 2)) (.leaf 6))) = true ∧
+    (Grouping.allUnOps.all fun u => Grouping.allBinOps.all fun op =>
+      Grouping.parseSk2 [Grouping.idT 0, (2, Grouping.tokOf op, 3), (4, Grouping.unTok u, 5), Grouping.idT 6] ==
+        some (.bin op (.leaf 0) (.un u (.leaf 6)))) = true :=
+  ⟨Grouping.unary_left, Grouping.unary_right⟩
